@@ -557,12 +557,21 @@ def align_variable_names_with_convention(
         for target in (stmt, *getattr(stmt, "targets", ()), getattr(stmt, "target", None))
         for node in ([target] if target is stmt else ast.walk(target or stmt))
     }
+    member_definitions = collections.Counter(
+        node.name
+        for node in class_members
+        if isinstance(node, (ast.FunctionDef, ast.AsyncFunctionDef, ast.ClassDef))
+    )
     for name, node_substitutes in name_renamings.items():
         nodes = [node for node, _ in node_substitutes]
         substitutes = {substitute for _, substitute in node_substitutes}
         is_member = not class_members.isdisjoint(nodes)
+        scope_definitions = [
+            node for node in nodes if not isinstance(node, ast.Name) and node not in class_members
+        ]
         if (
             sum(isinstance(node, ast.Name) for node in nodes) != variables[name]
+            or len(scope_definitions) != definitions[name] - member_definitions[name]
             or fixed_names[name]
             or (is_member and attributes[name])
             or any(
